@@ -3,11 +3,16 @@ package hx
 import (
 	"encoding/json"
 	"fmt"
+	"os"
+	"path/filepath"
 	"sort"
+	"strings"
 	"sync"
 
 	"github.com/google/jsonschema-go/jsonschema"
 
+	"verif/engine/refsem"
+	"verif/engine/smt"
 	"verif/engine/sx"
 )
 
@@ -118,5 +123,79 @@ func RunSuiteConcrete(p *sx.Program, workers int) (*SuiteResult, error) {
 	close(ch)
 	wg.Wait()
 	sort.Strings(res.Disagree)
+	return res, nil
+}
+
+// SuiteTextLoader is the oracle-side loader over the same files as SuiteLoader.
+func SuiteTextLoader(uri string) ([]byte, bool) {
+	u := refsem.ParseURI(uri)
+	read := func(f string) ([]byte, bool) {
+		b, err := os.ReadFile(f)
+		return b, err == nil
+	}
+	if u.Authority == "localhost:1234" {
+		return read(filepath.Join(PkgDir, "testdata/remotes", u.Path))
+	}
+	for _, pre := range []struct{ prefix, dir string }{
+		{"https://json-schema.org/draft/2020-12/", "meta-schemas/draft2020-12/"},
+		{"https://json-schema.org/draft-07/", "meta-schemas/draft7/"},
+		{"http://json-schema.org/draft-07/", "meta-schemas/draft7/"},
+	} {
+		if after, ok := strings.CutPrefix(uri, pre.prefix); ok {
+			return read(filepath.Join(PkgDir, pre.dir+after+".json"))
+		}
+	}
+	return nil, false
+}
+
+// OracleSuiteResult summarises the oracle self-check.
+type OracleSuiteResult struct {
+	Cases    int
+	Agree    int
+	Disagree []string
+}
+
+// RunOracleSuite evaluates the reference semantics concretely on every case of the
+// test-suite copy and compares with the suite's expected `valid` flag.
+func RunOracleSuite(p *sx.Program) (*OracleSuiteResult, error) {
+	res := &OracleSuiteResult{}
+	for _, d := range []string{"draft2020-12", "draft7"} {
+		groups, err := LoadSuite(d)
+		if err != nil {
+			return nil, err
+		}
+		def := refsem.Draft2020
+		if d == "draft7" {
+			def = refsem.Draft7
+		}
+		for _, g := range groups {
+			for _, t := range g.Tests {
+				res.Cases++
+				id := fmt.Sprintf("%s/%s/%s", g.File, g.Description, t.Description)
+				m := sx.NewMachine(p, smt.NewCtx(), nil)
+				r, err := refsem.NewResolver(g.SchemaJSON, "", SuiteTextLoader, def)
+				if err != nil {
+					res.Disagree = append(res.Disagree, id+": oracle resolver: "+err.Error())
+					continue
+				}
+				inst, err := refsem.ParseJSON(t.Data)
+				if err != nil {
+					return nil, err
+				}
+				o := refsem.NewOracle(m, r)
+				ok := o.Valid(refsem.ConstInst{M: m, V: inst})
+				switch {
+				case o.Err() != nil:
+					res.Disagree = append(res.Disagree, id+": oracle error: "+o.Err().Error())
+				case !ok.IsConst():
+					res.Disagree = append(res.Disagree, id+": oracle verdict is not constant")
+				case ok.IsTrue() != t.Valid:
+					res.Disagree = append(res.Disagree, fmt.Sprintf("%s: oracle=%v expected=%v", id, ok.IsTrue(), t.Valid))
+				default:
+					res.Agree++
+				}
+			}
+		}
+	}
 	return res, nil
 }
